@@ -9,7 +9,10 @@
  *     buf   L | E | D   stdio buffering of the write streams (see common/ps_stdio.h)
  *     freq  save_freq given to coap_persist_startup
  *     cfg   three characters, 'd' 'o' 'c' or '-': which files are given to coap_persist_startup
- *           (a 4th character 'u' = no unknown-resource handler is registered)
+ *           (a 4th character 'u' = no unknown-resource handler is registered; a 5th character
+ *           selects resource flags the application may use and that must not matter here:
+ *           'w' unknown resource with COAP_RESOURCE_HANDLE_WELLKNOWN_CORE, 'm' every resource
+ *           with multicast support flags, 'f' every resource with FORCE_SINGLE_BODY, 'a' all)
  *     port  UDP port of the server endpoint on 127.0.0.1
  *     la lt listen proto tuples: the memory images the model needs (sizeof coap_address_t,
  *           sizeof coap_addr_tuple_t, bind address, COAP_PROTO_UDP, session address tuple of
@@ -167,6 +170,15 @@ static void add_handlers(coap_resource_t *r) {
   coap_register_request_handler(r, COAP_REQUEST_PUT, hnd_put);
   coap_register_request_handler(r, COAP_REQUEST_DELETE, hnd_delete);
 }
+/* resource flags of the configuration (5th character of cfg) */
+static int extra_flags(int unknown) {
+  char f = cs.cfg[3] ? cs.cfg[4] : 0;
+  int fl = 0;
+  if (unknown && (f == 'w' || f == 'a')) fl |= COAP_RESOURCE_HANDLE_WELLKNOWN_CORE;
+  if (f == 'm' || f == 'a') fl |= COAP_RESOURCE_FLAGS_HAS_MCAST_SUPPORT | COAP_RESOURCE_FLAGS_LIB_DIS_MCAST_DELAYS;
+  if (f == 'f' || f == 'a') fl |= COAP_RESOURCE_FLAGS_FORCE_SINGLE_BODY;
+  return fl;
+}
 /* the application's handler for unknown resources: PUT creates the resource */
 static void hnd_put_unknown(coap_resource_t *r, coap_session_t *s, const coap_pdu_t *req,
                             const coap_string_t *q, coap_pdu_t *resp) {
@@ -175,7 +187,7 @@ static void hnd_put_unknown(coap_resource_t *r, coap_session_t *s, const coap_pd
   if (!path) { coap_pdu_set_code(resp, COAP_RESPONSE_CODE_BAD_REQUEST); return; }
   coap_resource_t *n = coap_resource_init((coap_str_const_t *)path,
                                           COAP_RESOURCE_FLAGS_RELEASE_URI |
-                                          COAP_RESOURCE_FLAGS_NOTIFY_NON_ALWAYS);
+                                          COAP_RESOURCE_FLAGS_NOTIFY_NON_ALWAYS | extra_flags(0));
   add_handlers(n);
   if (!(path->length > 0 && path->s[0] == 'x')) coap_resource_set_get_observable(n, 1);
   coap_add_resource(g_ctx, n);
@@ -235,13 +247,13 @@ static void server_start(void) {
   vn_register_ep(g_ctx, g_ep);
   for (int i = 0; i < 2; i++) {
     coap_resource_t *r = coap_resource_init(coap_make_str_const(i ? "s1" : "s0"),
-                                            COAP_RESOURCE_FLAGS_NOTIFY_NON_ALWAYS);
+                                            COAP_RESOURCE_FLAGS_NOTIFY_NON_ALWAYS | extra_flags(0));
     add_handlers(r);
     coap_resource_set_get_observable(r, 1);
     coap_add_resource(g_ctx, r);
   }
   if (cs.cfg[3] != 'u') {
-    coap_resource_t *u = coap_resource_unknown_init(hnd_put_unknown);
+    coap_resource_t *u = coap_resource_unknown_init2(hnd_put_unknown, extra_flags(1));
     coap_add_resource(g_ctx, u);
   }
   coap_persist_startup(g_ctx, cs.cfg[0] == 'd' ? path_of("dyn") : NULL,
@@ -598,7 +610,7 @@ static int parse_case(void) {
   cs.buf = vtok[2][0];
   cs.freq = atoi(vtok[3]);
   memset(cs.cfg, 0, sizeof(cs.cfg));
-  strncpy(cs.cfg, vtok[4], 4);
+  strncpy(cs.cfg, vtok[4], 5);
   cs.port = atoi(vtok[5]);
   mk_addrs(cs.port);
   int ntup = atoi(vtok[10]);
